@@ -435,8 +435,9 @@ pub fn case_edge(scratch: &Path, meta: usize, id: &str, seed: u64, _len: usize, 
     let mut extreme = false;
     for op in &ops {
         match op {
-            Op::Truncate { pos, .. } if *pos >= max - 1 => extreme = true,
-            Op::Append { pos: Some(p), .. } if *p >= max - 1 => extreme = true,
+            // automatic positions continue from there and reach 2^64-1 a few calls later
+            Op::Truncate { pos, .. } if *pos >= max - 16 => extreme = true,
+            Op::Append { pos: Some(p), .. } if *p >= max - 16 => extreme = true,
             _ => {}
         }
         let tag = if extreme { EDGE_TAG } else { "" };
